@@ -50,6 +50,19 @@ import (
 
 const chainEpoch = 1
 
+// placement policies; validity is decided by neofs-sdk-go PlacementPolicy.Verify (trusted reference),
+// the invalid ones fail it in different ways.
+var (
+	validPolicies   = []string{"REP 1", "REP 1", "REP 2 IN X CBF 1 SELECT 2 FROM * AS X", "EC 2/1", "REP 1 EC 2/1"}
+	invalidPolicies = []string{
+		"REP 1 IN MISSING",  // REP rule refers to a selector that does not exist
+		"REP 9",             // more than 8 object replicas
+		"REP 2 CBF 40",      // more than 64 nodes in the set
+		"EC 2/1 IN MISSING", // EC rule with a missing selector
+		"REP 1 IN X REP 1 IN NOPE CBF 1 SELECT 1 FROM * AS X", // second rule's selector missing
+	}
+)
+
 var (
 	owners     = []*keys.PrivateKey{irfix.Key(100), irfix.Key(101)}
 	stranger   = irfix.Key(102)
@@ -335,6 +348,20 @@ func (a auth) label() string {
 func TestC37(t *testing.T) {
 	rec := ev.New("C37", "container-requests")
 	defer rec.Flush()
+	// harness table self check (policy validity is the SDK's verdict)
+	for _, ps := range append(append([]string{}, validPolicies...), invalidPolicies...) {
+		var p netmap.PlacementPolicy
+		if err := p.DecodeString(ps); err != nil {
+			t.Fatalf("harness: policy %q does not decode: %v", ps, err)
+		}
+		bad := false
+		for _, x := range invalidPolicies {
+			bad = bad || x == ps
+		}
+		if (p.Verify() != nil) != bad {
+			t.Fatalf("harness: policy %q: SDK Verify says %v, table says invalid=%v", ps, p.Verify(), bad)
+		}
+	}
 	w := getWorld()
 	// two inner ring configurations on the same chain: chain metadata feature off / on
 	type side struct {
@@ -355,7 +382,7 @@ func TestC37(t *testing.T) {
 			ev.Inconclusive("%v", err)
 		}
 		sd.calls = map[string]func(event.Event){}
-		for _, n := range []string{"put", "create", "createV2", "remove", "putEACL", "setAttribute", "removeAttribute"} {
+		for _, n := range []string{"put", "putNamed", "create", "createV2", "remove", "putEACL", "setAttribute", "removeAttribute"} {
 			for _, h := range hs {
 				if h.Proc == "container" && h.Name == n {
 					sd.calls[n] = h.Call
@@ -366,10 +393,10 @@ func TestC37(t *testing.T) {
 			}
 		}
 	}
-	approvals, misses := 0, 0
+	approvals, misses, reachedInvalidPolicy := 0, 0, 0
 
 	rapid.Check(t, func(t *rapid.T) {
-		kind := rapid.SampledFrom([]string{"put", "create", "createV2", "createV2+eACL", "remove", "putEACL", "setAttribute", "removeAttribute"}).Draw(t, "kind")
+		kind := rapid.SampledFrom([]string{"put", "putNamed", "create", "createV2", "createV2+eACL", "remove", "putEACL", "setAttribute", "removeAttribute"}).Draw(t, "kind")
 		metaOn := rapid.Bool().Draw(t, "chainMetaFeature")
 		env, proxy, calls := sides[metaOn].env, sides[metaOn].proxy, sides[metaOn].calls
 		mode := rapid.SampledFrom([]string{"member", "member", "member", "member", "non-member", "lookup-error"}).Draw(t, "state")
@@ -389,13 +416,14 @@ func TestC37(t *testing.T) {
 		}
 
 		var (
-			evn         event.Event
-			req         irsetup.Request
-			contentOK   = true
-			why         []string
-			authOK      bool
-			call        = calls[strings.TrimSuffix(kind, "+eACL")]
-			extraLabels []string
+			evn                  event.Event
+			req                  irsetup.Request
+			contentOK            = true
+			why                  []string
+			authOK               bool
+			call                 = calls[strings.TrimSuffix(kind, "+eACL")]
+			extraLabels          []string
+			policyInvalidUnnamed bool
 		)
 		eaclPart := func(cnrID cid.ID, ownerIdx int, extendable bool) (*cntEvent.PutContainerEACLRequest, []byte, bool, bool) {
 			recs, hasSystem := genRecords(t)
@@ -413,10 +441,22 @@ func TestC37(t *testing.T) {
 		}
 
 		switch kind {
-		case "put", "create", "createV2", "createV2+eACL":
+		case "put", "putNamed", "create", "createV2", "createV2+eACL":
 			ownerIdx := rapid.IntRange(0, 1).Draw(t, "owner")
 			basic := rapid.SampledFrom([]acl.Basic{acl.PublicRWExtended, acl.PublicRW, acl.Private}).Draw(t, "basicACL")
-			policy := rapid.SampledFrom([]string{"REP 1", "REP 1", "REP 2 IN X CBF 1 SELECT 2 FROM * AS X", "EC 2/1", "REP 1 EC 2/1"}).Draw(t, "policy")
+			// placement policy: validity is a dimension of its own (independent of entry point and naming)
+			policy := rapid.SampledFrom(validPolicies).Draw(t, "policy")
+			if rapid.IntRange(0, 2).Draw(t, "invalidPolicy") == 0 {
+				policy = rapid.SampledFrom(invalidPolicies).Draw(t, "badPolicy")
+			}
+			// naming: requests through putNamed / create may carry a domain that must match the container's
+			naming := "unnamed"
+			switch kind {
+			case "putNamed":
+				naming = rapid.SampledFrom([]string{"named-match", "named-match", "named-mismatch-name", "named-mismatch-zone"}).Draw(t, "naming")
+			case "create":
+				naming = rapid.SampledFrom([]string{"unnamed", "unnamed", "named-match", "named-mismatch-name"}).Draw(t, "naming")
+			}
 			// 0-4 attributes in generated order: user, permitted system, forbidden system, chain-meta
 			var attrs [][2]string
 			var attrKinds []string
@@ -475,6 +515,33 @@ func TestC37(t *testing.T) {
 			if err != nil {
 				t.Fatalf("harness: policy %q: %v", policy, err)
 			}
+			policyValid := c.PlacementPolicy().Verify() == nil // neofs-sdk-go is the trusted reference for policy validity
+			if !policyValid {
+				contentOK = false
+				why = append(why, "invalid placement policy")
+			}
+			argName, argZone := "", ""
+			if naming != "unnamed" || rapid.IntRange(0, 4).Draw(t, "domainAttrsAnyway") == 0 {
+				var d container.Domain
+				d.SetName(fmt.Sprintf("cnr-%d", nonce%1000))
+				d.SetZone("container")
+				c.WriteDomain(d)
+				if naming != "unnamed" {
+					argName, argZone = d.Name(), d.Zone()
+				}
+			}
+			switch naming {
+			case "named-mismatch-name":
+				argName += "x"
+				contentOK = false
+				why = append(why, "domain name differs")
+			case "named-mismatch-zone":
+				argZone = "other"
+				contentOK = false
+				why = append(why, "domain zone differs")
+			}
+			extraLabels = append(extraLabels, naming, map[bool]string{true: "policy-valid", false: "policy-invalid"}[policyValid])
+			policyInvalidUnnamed = !policyValid && naming == "unnamed"
 			raw := c.Marshal()
 			id := cid.NewFromMarshalledContainer(raw)
 			inv, ver, tok, ok := a.build(ownerIdx, session.VerbContainerPut, nil, raw)
@@ -494,9 +561,23 @@ func TestC37(t *testing.T) {
 				if err != nil {
 					t.Fatalf("harness: %v", err)
 				}
+			case "putNamed":
+				pub := ver
+				if pub == nil {
+					pub = []byte{}
+				}
+				tk := tok
+				if tk == nil {
+					tk = []byte{}
+				}
+				req = mk(cntEvent.PutNamedNotaryEvent, raw, inv, pub, tk, argName, argZone)
+				evn, err = cntEvent.ParsePutNamedNotary(req.Ev)
+				if err != nil {
+					t.Fatalf("harness: %v", err)
+				}
 			case "create":
-				req = mk(fschaincontracts.CreateContainerMethod, raw, inv, ver, tok, "", "", false)
-				evn = cntEvent.CreateContainerRequest{MainTransaction: *req.Req.MainTransaction, CreateContainerParams: fschaincontracts.CreateContainerParams{Container: raw, InvocationScript: inv, VerificationScript: ver, SessionToken: tok}}
+				req = mk(fschaincontracts.CreateContainerMethod, raw, inv, ver, tok, argName, argZone, false)
+				evn = cntEvent.CreateContainerRequest{MainTransaction: *req.Req.MainTransaction, CreateContainerParams: fschaincontracts.CreateContainerParams{Container: raw, InvocationScript: inv, VerificationScript: ver, SessionToken: tok, DomainName: argName, DomainZone: argZone}}
 			default:
 				req = mk(fschaincontracts.CreateContainerV2Method, irsetup.ContainerStruct(c), inv, ver, tok)
 				r := cntEvent.CreateContainerV2Request{MainTransaction: *req.Req.MainTransaction, Container: *irsetup.ContainerStruct(c), InvocationScript: inv, VerificationScript: ver, SessionToken: tok}
@@ -601,6 +682,10 @@ func TestC37(t *testing.T) {
 		member := mode == "member"
 		want := member && authOK && contentOK
 		labels := append([]string{kind, mode, a.label()}, extraLabels...)
+		if policyInvalidUnnamed && authOK && member {
+			labels = append(labels, "unnamed&invalid-policy&authorised")
+			reachedInvalidPolicy++
+		}
 		if !contentOK {
 			labels = append(labels, "content-unacceptable")
 		}
@@ -635,6 +720,10 @@ func TestC37(t *testing.T) {
 	})
 	rec.Set("approvals", approvals)
 	rec.Set("completeness_misses", misses)
+	rec.Set("unnamed_invalid_policy_authorised", reachedInvalidPolicy)
+	if reachedInvalidPolicy == 0 && os.Getenv("VERIF_TIER") != "" {
+		t.Fatalf("generator self check: the class unnamed&invalid-policy&authorised was not reached in this run")
+	}
 	if approvals == 0 {
 		t.Fatalf("non-vacuity self check: no request was approved in this run")
 	}
